@@ -134,8 +134,8 @@ func (e *env) generateFrom(cli, cwd string, args []string, dir string, files []s
 		if err != nil {
 			continue
 		}
-		if old, had := before[bandOf(f)]; had && fi.ModTime().Equal(old) && fi.ModTime().Before(start) {
-			continue // untouched leftover
+		if old, had := before[bandOf(f)]; had && fi.ModTime().Equal(old) && fi.ModTime().Before(start) && r.Code != 0 {
+			continue // a failed run did not touch it: a leftover, not output. (A successful run that leaves a file as it is vouches for its content.)
 		}
 		if b, err := os.ReadFile(p); err == nil {
 			res.out[bandOf(f)] = string(b)
@@ -333,6 +333,23 @@ func (e *env) applyOp(dir string, t *target, op histOp) {
 			return
 		}
 		_ = os.WriteFile(band, b[:len(b)*op.Arg/1000], 0o644)
+	case "reformat":
+		// the previous output went through an editor or a VCS filter: same code, other bytes
+		b, err := os.ReadFile(band)
+		if err != nil {
+			return
+		}
+		switch op.Arg {
+		case 0:
+			b = bytes.ReplaceAll(b, []byte("\n"), []byte("\r\n"))
+		case 1:
+			b = bytes.TrimRight(b, "\n")
+		case 2:
+			b = bytes.ReplaceAll(b, []byte("\t"), []byte("    "))
+		default:
+			b = append(bytes.ReplaceAll(b, []byte("\n\n"), []byte("\n\n\n")), '\n')
+		}
+		_ = os.WriteFile(band, b, 0o644)
 	case "empty":
 		if _, err := os.Stat(band); err == nil {
 			_ = os.WriteFile(band, nil, 0o644)
@@ -370,6 +387,9 @@ func genHistory(r *progen.Rand, t *target) []histOp {
 			op = histOp{Op: "delete", File: f}
 			if r.Chance(1, 2) {
 				op = histOp{Op: "empty", File: f}
+			}
+			if i > 0 && r.Chance(1, 2) {
+				op = histOp{Op: "reformat", File: f, Arg: r.Intn(4)}
 			}
 		case 9:
 			if len(t.files) > 1 {
@@ -497,6 +517,11 @@ func (e *env) checkTarget(t *target, seed uint64, idx int, tier string, c *count
 	}
 	for h := 0; h < nHist+nCrash; h++ {
 		ops := genHistory(r, t)
+		if h == nHist-1 {
+			// one history per target is always: generated, then reformatted by something else
+			f := t.files[r.Intn(len(t.files))]
+			ops = []histOp{{Op: "gen", File: f}, {Op: "reformat", File: f, Arg: r.Intn(4)}}
+		}
 		if h >= nHist {
 			f := t.files[r.Intn(len(t.files))]
 			ops = []histOp{{Op: "crash", File: f, Arg: 20 + r.Intn(45)}}
